@@ -61,15 +61,16 @@ theorem closed_sabaInit (b : Bool) : Closed [.sabaInit b, .init] := by closed_li
 
 /-- shape of a SABA step in unsafe mode -/
 theorem sabaStepOps_unsafe (c : SabaConfig) (hs : c.safe = false) (g : Flags)
-    (hg : g.allocated = true) :
+    (hg : g.allocated = true) (hr : g.isSync = false → g.recalc = false) :
     sabaStepOps c g =
       ([.sabaInit (c.type ≥ 0x100), .init] ++ (if g.recalc then [Prim.fromInertial] else []) ++
         sabaDrift c (g.isSync || (g.recalc && c.p1fix)) ++ sabaTail c ++ [.advT (.frac 1 1)],
        { isSync := false, recalc := false, allocated := true }) := by
   obtain ⟨isSync, recalc, allocated⟩ := g
   simp only at hg; subst hg
+  simp only at hr
   cases isSync <;> cases recalc <;> cases hp : c.p1fix <;>
-    simp [sabaStepOps, sabaPart1Ops, sabaPart2Ops, hs, hp, initF, sabaDrift, sabaTail, List.append_assoc]
+    simp_all [sabaStepOps, sabaPart1Ops, sabaPart2Ops, hs, hp, initF, sabaDrift, sabaTail, List.append_assoc]
 
 theorem sabaStepOps_initF (c : SabaConfig) (f : Flags) : sabaStepOps c (initF f) = sabaStepOps c f := by
   unfold sabaStepOps sabaPart1Ops; rw [initF_idem]
@@ -79,7 +80,7 @@ theorem sabaStepOps_initF (c : SabaConfig) (f : Flags) : sabaStepOps c (initF f)
 theorem saba_step_pj_determined (c : SabaConfig) (hs : c.safe = false) (g : Flags)
     (hg : g.allocated = true) (hr : g.isSync = false → g.recalc = false) :
     (transferList (sabaStepOps c g).1 ⟨true, g.isSync, g.isSync, false, false, false⟩).pj = true := by
-  rw [sabaStepOps_unsafe c hs g hg]
+  rw [sabaStepOps_unsafe c hs g hg hr]
   have tailc : ∀ b, Closed (sabaDrift c b ++ sabaTail c ++ [Prim.advT (.frac 1 1)]) := fun b =>
     closed_append (closed_append (closed_sabaDrift c b) (closed_sabaTail c)) (closed_advT _)
   cases hi : g.isSync
@@ -191,7 +192,7 @@ theorem srel_step (S : Sem T PJ X V A) (c : SabaConfig) (hs : c.safe = false)
   have ha : agree ⟨true, g.isSync, g.isSync, false, false, false⟩ x.2 y.2 :=
     agree_pj_posvel _ h2 h3
   have := agree_exec S (sabaStepOps c g).1 _ _ _ ha
-  refine ⟨⟨rfl, this.1 hd, ?_⟩, ?_⟩ <;> rw [sabaStepOps_unsafe c hs g hg] <;> simp [initF]
+  refine ⟨⟨rfl, this.1 hd, ?_⟩, ?_⟩ <;> rw [sabaStepOps_unsafe c hs g hg h4] <;> simp [initF]
 
 theorem srel_sync (S : Sem T PJ X V A) (c : SabaConfig) (hk : c.keep = true)
     (x : Flags × St PJ X V A) (hx : (initF x.1).isSync = false → (initF x.1).recalc = false) :
